@@ -155,6 +155,8 @@ def gen(root, out, max_per_file, seed=1):
 
 
 def checks_for(f):
+    if os.environ.get("MUT_CHECKS"):
+        return os.environ["MUT_CHECKS"].split(",")
     for pre, cs in CHECKS:
         if f.startswith(pre):
             return cs
